@@ -13,6 +13,7 @@
 #include <sstream>
 #include <unistd.h>
 #include <unordered_set>
+#include <chrono>
 
 using namespace tbfsim;
 
@@ -139,7 +140,9 @@ static int runOne(Scenario& sc, bool always) {
     g_curSub = sc.sub;
     std::printf("STAGE %llu %d begin\n", (unsigned long long)sc.seed, sc.sub);
     std::fflush(stdout);
+    const auto t0 = std::chrono::steady_clock::now();
     Json r = runScenario(sc);
+    r.set("ms", (long)std::chrono::duration_cast<std::chrono::milliseconds>(std::chrono::steady_clock::now() - t0).count());
 #ifdef TBFSIM_ASAN
     setStage("leak-check");
     if (!g_leakSeen && __lsan_do_recoverable_leak_check()) {
